@@ -100,7 +100,133 @@ def poly_laws(out, thorough):
             out.violation("spec:" + ",".join(r.violated), "spec-level PolyLaws " + ",".join(r.violated), r.stdout[-2500:])
 
 
+BOOL_KINDS = ["QUBO", "PUBO", "PCBO", "QUBOMatrix", "PUBOMatrix"]
+SPIN_KINDS = ["QUSO", "PUSO", "PCSO", "QUSOMatrix", "PUSOMatrix"]
+QUAD = {"QUBO", "QUSO", "QUBOMatrix", "QUSOMatrix"}
+
+
+def _cls(kind):
+    import qubovert as qv
+    import qubovert.utils as qu
+    return getattr(qv, kind, None) or getattr(qu, kind)
+
+
+def pool_labels(pool):
+    return [0, 1, 2] if pool < 0 else list(common.LABEL_POOLS[pool])[:3]
+
+
+def pair_record(rid, kl, kr, spin, pa, pb, pool):
+    """a (+|-|*) b on the real classes; everything observed, nothing judged"""
+    import operator
+    from . import pure
+    labels = pool_labels(pool)
+    names = {(type(l).__name__, l): "L%d" % i for i, l in enumerate(labels)}
+
+    def raw(d):
+        return [[[names[(type(x).__name__, x)] for x in k], common.to_int(common.frac(v), 1)] for k, v in dict.items(d)]
+    ta, tb = pure.instantiate(pa, labels), pure.instantiate(pb, labels)
+    a, b = _cls(kl)(ta), _cls(kr)(tb)
+    a0, b0 = list(dict.items(a)), list(dict.items(b))
+    rec = {"id": rid, "kl": kl, "kr": kr, "spin": spin, "a": raw(a), "b": raw(b), "ops": [], "pool": pool,
+           "pa": [[list(k), v] for k, v in pa.items()], "pb": [[list(k), v] for k, v in pb.items()]}
+    for opname, f in (("add", operator.add), ("sub", operator.sub), ("mul", operator.mul)):
+        e = {"op": opname, "raised": "", "res": [], "rkind": "", "a_same": True, "b_same": True, "comm": "na"}
+        try:
+            r = f(a, b)
+            e["res"], e["rkind"] = raw(r), type(r).__name__
+            if opname != "sub":
+                try:
+                    r2 = f(b, a)
+                    e["comm"] = "eq" if (r == r2 and r2 == r) else "ne"
+                except KeyError:
+                    pass
+        except Exception as ex:      # noqa
+            e["raised"] = type(ex).__name__
+        e["a_same"] = list(dict.items(a)) == a0 and type(a).__name__ == kl
+        e["b_same"] = list(dict.items(b)) == b0 and type(b).__name__ == kr
+        rec["ops"].append(e)
+    return rec
+
+
+def _pair_chunk(arg):
+    """some ordered pairs of classes x (left universe x right universe): run in a worker process, judged by its own TLC run"""
+    idx, groups, lefts, rights, wd = arg
+    os.environ.pop(common.GUARD, None)
+    recs = []
+    for kl, kr, spin, pool in groups:
+        for pa in lefts:
+            if kl in QUAD and any(len(k) > 2 for k in pa):
+                continue
+            for pb in rights:
+                if kr in QUAD and any(len(k) > 2 for k in pb):
+                    continue
+                recs.append(pair_record(len(recs) + 1, kl, kr, spin, pa, pb, pool))
+    rf = os.path.join(wd, "pairs_%d.ndjson" % idx)
+    common.write_ndjson(rf, recs)
+    r = run_tlc("CheckBin", "CheckBin.cfg", env={"QV_RECS": rf}, cont=True, timeout=3000, workers=2, heap="2g", name="checkbin_%d" % idx)
+    viol = []
+    for v in r.viol_lines:
+        clause, i = v[1].strip('"'), int(v[2])
+        rc = recs[i - 1]
+        if (clause, rc["kl"], rc["kr"]) not in [(x[0], x[1]["kl"], x[1]["kr"]) for x in viol]:
+            viol.append((clause, rc))
+    os.remove(rf)
+    return {"n": len(recs), "distinct": r.distinct, "generated": r.generated, "viol": viol,
+            "broken": (bool(r.violated) and not r.viol_lines) or not r.completed, "tail": r.stdout[-1200:]}
+
+
+def pairs_tier(out, wd, rng, thorough):
+    """every ordered pair of classes of one domain x ordered pairs of universe polynomials x {+,-,*}.
+    thorough: the whole universe on both sides; quick: left operands with coefficient 1 only (37 of the 129)"""
+    from concurrent.futures import ProcessPoolExecutor
+    from . import pure
+    polys, desc = pure.universe("3t", wd)
+    lefts = polys if thorough else [p for p in polys if all(v == 1 for v in p.values())]
+    pairs = [(kl, kr, False) for kl in BOOL_KINDS for kr in BOOL_KINDS] + [(kl, kr, True) for kl in SPIN_KINDS for kr in SPIN_KINDS]
+    groups = []
+    for kl, kr, spin in pairs:
+        matrix = "Matrix" in kl or "Matrix" in kr
+        groups.append((kl, kr, spin, -1 if matrix else rng.randrange(len(common.LABEL_POOLS))))
+    nchunks = 50 if thorough else 14
+    args = [(i, groups[i::nchunks], lefts, polys, wd) for i in range(nchunks)]
+    with ProcessPoolExecutor(max_workers=14 if not thorough else 8) as ex:
+        results = list(ex.map(_pair_chunk, args))
+    out.set("operand_pair_universe", dict(desc, left_operands=len(lefts), right_operands=len(polys), class_pairs=len(pairs),
+                                          operators=["add", "sub", "mul"]))
+    for res in results:
+        out.add("operand_pairs_run", res["n"])
+        out.add("states", res["distinct"])
+        out.add("transitions", res["generated"])
+        for clause, rc in res["viol"]:
+            out.violation(clause, "pairs %s %s op %s" % (clause, rc["kl"], rc["kr"]), rc, {"pair": rc})
+        if res["broken"]:
+            out.violation("spec:CheckBin", "CheckBin did not complete", res["tail"], None)
+
+
+def replay_pair(out, rc):
+    wd = common.workdir("c05p")
+    try:
+        os.environ.pop(common.GUARD, None)
+        rec = pair_record(1, rc["kl"], rc["kr"], rc["spin"], {tuple(k): v for k, v in rc["pa"]}, {tuple(k): v for k, v in rc["pb"]}, rc["pool"])
+        rf = os.path.join(wd, "pairs.ndjson")
+        common.write_ndjson(rf, [rec])
+        r = run_tlc("CheckBin", "CheckBin.cfg", env={"QV_RECS": rf}, cont=True, timeout=600, workers=2, name="checkbin_replay")
+        for v in r.viol_lines:
+            out.violation(v[1].strip('"'), "pairs %s %s op %s" % (v[1].strip('"'), rec["kl"], rec["kr"]), rec, {"pair": rec})
+        out.sample({"replayed_pair": [rec["kl"], rec["kr"], rec["a"], rec["b"]]})
+    finally:
+        common.cleanup(wd)
+
+
 def run(tier, out, replay=None):
+    if replay and "pair" in (json.load(open(replay)).get("record") or {}):
+        return replay_pair(out, json.load(open(replay))["record"]["pair"])
+    if not replay:
+        wd = common.workdir("c05p")
+        try:
+            pairs_tier(out, wd, common.rng_for(out.seed, "c05p"), tier == "thorough")
+        finally:
+            common.cleanup(wd)
     generic_run(tier, out, "c05", FAMILIES, OPS, TRACE_INVS, ["StoredCanonical", "UpperBounds"], sim_n=(120, 1500), sim_depth=10,
                 walk_fams=("pubo", "quso"), walk_budget=(10000, 300000), mc_depth=(3, 4), replay=replay, extra_design=poly_laws)
     out.assumptions += ["integer coefficients in {-1,0,1} for edits; division only by divisors of every coefficient (exactness)",
